@@ -1,4 +1,4 @@
-"""C06 - namespace processing: Namespaces specification, binders T (every enumerated document), W (random walks), V (trace validation).
+"""C06 - namespace processing: Namespaces specification, binders T (every enumerated document) and V (trace validation); W is written, not run.
 
 spec/Namespaces.tla       operational layer (ElemStack rows searched innermost-first, two-pass StartElement, SAX2 prefix-mapping events,
                           DOM Level 3 appendix B lookups) and declarative layer (NearestDeclaration, ErrorsExact, Balanced, Scoped, DomAgrees)
@@ -7,7 +7,7 @@ spec/NamespacesGen.tla    GSpec: contexts x every start tag, one complete docume
 spec/NamespacesTrace.tla  SAX2 event streams recorded from the implementation, validated event by event
 harness/ns_harness.cpp    renders the tokens (4 layouts), parses with SAX2 (namespace-prefixes off/on), SAX1, DOM x IG/WF/SG/DG scanners, compares
 
-Mutants (mutants/C06/*.diff), all DETECTED by the quick tier:
+Mutants (mutants/C06/*.diff; demonstrated with VERIF_C06_ONLY=GSpecFlat,BigSpec because of machine load, see mutants/C06/RESULTS.txt):
   m1-outermost-first   ElemStack::mapPrefixToURI searches the rows outermost-first
   m2-endprefix-empty   SAX2XMLReaderImpl: one endPrefixMapping too few for empty elements
   m3-lookup-undecl     DOMNodeImpl::lookupNamespaceURI ignores xmlns=""
@@ -25,7 +25,7 @@ META = dict(
     property_id="C06", engine="Namespaces", category="model_checking", design_ref="DESIGN.md §4 C06",
     technique="explicit TLA+ specification (Namespaces) model-checked with TLC; every enumerated nested document rendered and parsed by "
               "SAX2 (namespace-prefixes off/on), SAX1 and DOM with the IG/WF/SG/DG scanners and compared with the specification's events, "
-              "errors and DOM lookup tables (T); random walks (W); SAX2 event streams of random larger documents trace-validated (V)",
+              "errors and DOM lookup tables (T); SAX2 event streams of random larger documents trace-validated (V); walks (W) are written but not run",
     text="TLC checks exhaustively (nesting <= 3, prefixes {none,p,q}, URIs {none,u,v}, <= 2 declarations and <= 2 attributes per tag, XML 1.0 "
          "and 1.1, plus the reserved xml/xmlns prefixes and URIs) that the code-shaped resolution (innermost-first map rows, two passes) yields "
          "exactly the namespace names, errors, balanced and scoped prefix-mapping events and DOM lookup answers that the nearest enclosing "
@@ -134,12 +134,10 @@ def run(out, tier):
     if ONLY:
         cov.update(traces_validated_against_impl=tcases, samples=samples[:2], evaluations=tparses, distinct_nontrivial=tcases, rule="subset " + ",".join(ONLY))
         return
-    # 3. W: random documents over a larger universe
-    rw, cw, pw = _pipe(out, "NamespacesGen", "NamespacesWalk.cfg", exe, simulate=max(1, k["walks"] // 8), depth=24, workers=8)
-    cov["W"] = dict(walks=cw.get("cases", 0), error_documents=cw.get("cases_error", 0), parses=cw.get("parses", 0))
-    for a, v in cw.items():
-        if a.startswith("mm:"):
-            mm[a[3:]] = mm.get(a[3:], 0) + v
+    # 3. W (random walks, spec/NamespacesWalk.cfg + WSpec in NamespacesGen.tla) is written but not part of run(): it was not
+    #    exercised end to end on the unchanged tree before hand-in; every document it would produce has the format of T's lines.
+    cw = {}
+    cov["W"] = dict(walks=0, note="not run (see comment in c06.py)")
     # 4. V: SAX2 event streams of random larger documents, validated by NamespacesTrace
     tdir = tempfile.mkdtemp(prefix="c06v.", dir=os.path.join(C.BUILD, "tlc"))
     vdocs = vev = vacc = 0
@@ -177,7 +175,7 @@ def run(out, tier):
     shutil.rmtree(tdir, ignore_errors=True)
     cov["V"] = dict(traces=k["vtraces"], accepted=vacc, documents=k["vtraces"] * k["vdocs"], events_matched=vev)
     cov["traces_validated_against_impl"] = tcases + cw.get("cases", 0) + vacc
-    cov["samples"] = samples[:3] + [dict(walk=C.decode_tlc_json(s)) for s in pw.samples[:1]]
+    cov["samples"] = samples[:3]
     cov["exhaustive"] = True
     cov["evaluations"] = tparses + cw.get("parses", 0) + k["vtraces"] * k["vdocs"]
     cov["distinct_nontrivial"] = tcases
